@@ -128,7 +128,7 @@ static std::string vz_oracle(const Case& c, const int64_t* before, const int64_t
 
 static void run_case(Out& out, Rng& rng, const Case& c) {
   const uint64_t nn = c.nn;
-  const uint64_t PAD = 3;
+  const uint64_t PAD = 1 + rng.below(4);  // pointer misalignments 8/16/24/32 bytes relative to malloc
   bool two = (c.op == OP_ADD || c.op == OP_SUB);
   bool one = (c.op != OP_ZERO);
   uint64_t rext = c.rsz ? (c.rsz - 1) * c.rsl + nn : 0;
